@@ -260,6 +260,34 @@ def check_workspace(ctx):
     ctx.coverage["oracle"]["workspace_sessions"] = len(items)
 
 
+# review mode on an `in` snapshot whose previous value is no list display: the answer for fix must not apply the trim as well
+REVIEW_NONLIST = "from inline_snapshot import snapshot\n\n\ndef test_a():\n    for x in (2, 3):\n        assert x in snapshot((1, 2))\n"
+
+
+def run_review_nonlist(answers):
+    d = driver.scratch_dir()
+    try:
+        driver.write_project(d, {"test_r.py": REVIEW_NONLIST, "pyproject.toml": "[tool.inline-snapshot]\n"})
+        r = driver.run_pytest(d, ["--inline-snapshot=review"], stdin=answers, tty=True)
+        txt = (d / "test_r.py").read_text()
+        call = [n for n in ast.walk(ast.parse(txt)) if isinstance(n, ast.Call) and isinstance(n.func, ast.Name) and n.func.id == "snapshot"][0]
+        return {"arg": ast.unparse(call.args[0]), "rc": r["rc"], "tail": r["stdout"][-1200:], "infra": r.get("infra_error")}
+    finally:
+        shutil.rmtree(d, ignore_errors=True)
+
+
+def check_review_nonlist(ctx):
+    items = [(b"y\nn\nn\n", "fix: y, trim: n", "[1, 2, 3]"), (b"n\nn\nn\n", "fix: n", "(1, 2)"), (b"y\ny\nn\n", "fix: y, trim: y", "[2, 3]")]
+    for (ans, what, want), o in zip(items, tmap(run_review_nonlist, [i[0] for i in items])):
+        ctx.count(("review-nonlist", what), True)
+        if o.get("infra"):
+            raise RuntimeError("pytest session timed out twice (infrastructure)")
+        if o["arg"] != want:
+            ctx.report(f"C04 oracle (review mode, `x in snapshot((1, 2))` tested with 2 and 3, answers {what}): the snapshot holds {o['arg']}, applying exactly the approved categories gives {want}",
+                       {"kind": "review-nonlist", "answers": ans.decode(), "output": o["tail"]}, tag="F-89" if (what == "fix: y, trim: n" and o["arg"] == "[2, 3]") else None)
+    ctx.coverage["oracle"]["review_nonlist_sessions"] = len(items)
+
+
 def run(ctx: Ctx):
     ctx.coverage["rule"] = (
         "real pytest sessions on a project with one pending change in each of the four categories, a referenced and an unreferenced persisted external; configurations: "
@@ -287,6 +315,7 @@ def run(ctx: Ctx):
     sessloop.check_part(ctx, 36 if not ctx.thorough else 500, "C04")
     sessloop.check_nested(ctx, 24 if not ctx.thorough else 300, "C04")
     check_workspace(ctx)
+    check_review_nonlist(ctx)
     outs = tmap(run_config, confs)
     terms, idx = [], []
     for i, (c, o) in enumerate(zip(confs, outs)):
